@@ -1,0 +1,16 @@
+//go:build verif
+
+package tcpreader
+
+// Hook for the deterministic-simulation harness in /verif. Compiled only with
+// -tags verif; see verif_off.go for the no-op variant.
+
+// VerifYield, when set, is called at scheduling points between the channel
+// operations of Reassembled, ReassemblyComplete, Read and Close.
+var VerifYield func(site int)
+
+func verifPoint(site int) {
+	if VerifYield != nil {
+		VerifYield(site)
+	}
+}
